@@ -5,10 +5,6 @@ package parse
 // Binary operators are grouped by precedence climbing, see parseBinaryExpr;
 // the conditional operator binds loosest of all.
 func (t *Tree) parseExpr() (Expr, error) {
-	defer func() { t.depth-- }()
-	if err := t.deeper(); err != nil {
-		return nil, err
-	}
 	expr, err := t.parseBinaryExpr(0)
 	if err != nil {
 		return nil, err
@@ -16,6 +12,11 @@ func (t *Tree) parseExpr() (Expr, error) {
 
 	if nt := t.peekNonSpace(); nt.tokenType == tokenPunctuation && nt.value == "?" {
 		t.nextNonSpace()
+		// The branches of a conditional are a level of nesting (a ? b : c ? d : ...).
+		defer func() { t.depth-- }()
+		if err := t.deeper(); err != nil {
+			return nil, err
+		}
 		tx, err := t.parseExpr()
 		if err != nil {
 			return nil, err
